@@ -89,7 +89,7 @@ func c49CheckClosed(rt *rapid.T, n *nsNode) {
 
 func TestC49_StopAnywhere(t *testing.T) {
 	nsSetT(t)
-	vk.Check(t, 120, func(rt *rapid.T) {
+	vk.Check(t, 800, func(rt *rapid.T) {
 		var phaseLabels []string
 		nontrivial := false
 		var steps []string
